@@ -2,6 +2,12 @@
 //! that the stream re-registers and works again, outage after outage.
 //!   rec <pub|sub|replier|requestor> <outages> <max_attempts>
 //!   rec exhaust <pub|sub|replier|requestor> <max_attempts>      the server is gone: too-many-retries, no hang
+//!   rec displaced <max_attempts>              a second replier on a topic whose replier stays: every registration
+//!                                             is refused (already bound), so it reports too-many-retries
+//!   rec takeover <max_attempts>               the same, but the first replier leaves while the second still has
+//!                                             attempts left: the second one binds and serves
+//!   rec quiet <outages> <max_attempts>        a subscriber on a topic nobody publishes to during the outages
+//!                                             (nothing resets anything in between); one message at the end
 //! Implementation line: one token per outage: `ok` (traffic after recovery was carried), `lost`, `err:<e>`;
 //! for `exhaust`: `TooManyRetries` | `hang` | `err:<e>`.
 use crate::e2e::*;
@@ -130,6 +136,75 @@ async fn case(addr: SocketAddr, certs: &Certs, kind: &str, outages: usize, attem
     Ok(out.join(","))
 }
 
+/// a replier that finds the topic's replier slot taken
+async fn displaced(addr: SocketAddr, certs: &Certs, attempts: u32, first_leaves: bool) -> anyhow::Result<String> {
+    let n = TOPIC.fetch_add(1, Ordering::SeqCst);
+    let stable = client(addr, certs, backoff(5)).await?;
+    let second = client(addr, certs, backoff(attempts)).await?;
+    let topic = format!("/verif/recd{n}");
+    let s2 = stable.clone(); let t2 = topic.clone();
+    let first = tokio::spawn(async move {
+        let mut replier = s2.replier(&t2).with_request_decoder(StringCodec).with_reply_encoder(StringCodec)
+            .with_handler(|req: String| async move { Ok::<_, anyhow::Error>(format!("first:{req}")) }).open().await?;
+        replier.listen().await
+    });
+    tokio::time::sleep(Duration::from_millis(100)).await;
+    let c2 = second.clone(); let t3 = topic.clone();
+    let late = tokio::spawn(async move {
+        let mut replier = c2.replier(&t3).with_request_decoder(StringCodec).with_reply_encoder(StringCodec)
+            .with_handler(|req: String| async move { Ok::<_, anyhow::Error>(format!("second:{req}")) }).open().await?;
+        replier.listen().await
+    });
+    if first_leaves {
+        tokio::time::sleep(Duration::from_millis(150)).await;
+        first.abort();
+        // the first replier's client goes away altogether, so that its stream ends at the server
+        stable.verif_close_connection().await;
+        let third = client(addr, certs, backoff(5)).await?;
+        let mut rq = third.requestor(&topic).with_request_encoder(StringCodec).with_reply_decoder(StringCodec).with_request_timeout(300u64)?.open().await?;
+        let mut res = "unserved".to_string();
+        for j in 0..12 {
+            if late.is_finished() { break; }
+            match rq.request(format!("q{j}")).await { Ok(s) if s == format!("second:q{j}") => { res = "ok".into(); break; } Ok(s) => { res = format!("wrong:{s}"); } _ => {} }
+        }
+        if late.is_finished() { if let Ok(Err(e)) = late.await { res = format!("second-gave-up:{}", errname(&e)); } } else { late.abort(); }
+        Ok(res)
+    } else {
+        let r = match tokio::time::timeout(Duration::from_secs(20), late).await { Err(_) => "hang".to_string(), Ok(Ok(Err(e))) => errname(&e), Ok(Ok(Ok(()))) => "returned-ok".into(), Ok(Err(_)) => "aborted".into() };
+        first.abort();
+        Ok(r)
+    }
+}
+
+/// a subscriber whose topic stays silent while its connection is cut again and again
+async fn quiet(addr: SocketAddr, certs: &Certs, outages: usize, attempts: u32) -> anyhow::Result<String> {
+    let n = TOPIC.fetch_add(1, Ordering::SeqCst);
+    let stable = client(addr, certs, backoff(5)).await?;
+    let flaky = client(addr, certs, backoff(attempts)).await?;
+    let topic = format!("/verif/recs{n}");
+    let mut sub = flaky.subscriber(&topic).with_decoder(StringCodec).open().await?;
+    let (tx, mut rx) = tokio::sync::mpsc::unbounded_channel::<String>();
+    let reader = tokio::spawn(async move {
+        loop {
+            match sub.next().await { Some(Ok(s)) => { let _ = tx.send(format!("item:{s}")); } Some(Err(e)) => { let _ = tx.send(errname(&e)); break; } None => { let _ = tx.send("ended".into()); break; } }
+        }
+    });
+    tokio::time::sleep(Duration::from_millis(60)).await;
+    for _ in 0..outages {
+        flaky.verif_close_connection().await;
+        tokio::time::sleep(Duration::from_millis(350)).await;
+        if let Ok(x) = rx.try_recv() { reader.abort(); return Ok(x); }
+    }
+    let mut publ = stable.publisher(&topic).with_encoder(StringCodec).open().await?;
+    let mut res = "lost".to_string();
+    for j in 0..6 {
+        publ.send(format!("m{j}")).await?;
+        match tokio::time::timeout(Duration::from_millis(400), rx.recv()).await { Ok(Some(x)) => { res = if x.starts_with("item:m") { "ok".into() } else { x }; break; } _ => {} }
+    }
+    reader.abort();
+    Ok(res)
+}
+
 /// the server the client knows goes away and an impostor with certificates of another CA takes its port, so
 /// that every reconnection attempt fails at once (a dead port would cost a QUIC handshake timeout per attempt)
 struct Gone { rt: Option<tokio::runtime::Runtime>, addr: SocketAddr, other: Certs }
@@ -157,30 +232,35 @@ async fn exhaust(certs: &Certs, kind: &str, attempts: u32) -> anyhow::Result<Str
             publ.send("before".into()).await?;
             srv_rt.shutdown_background();
             flaky.verif_close_connection().await;
-            let mut res = "no-error".to_string();
-            for j in 0..20 {
-                match tokio::time::timeout(Duration::from_secs(30), publ.send(format!("m{j}"))).await { Err(_) => { res = "hang".into(); break; } Ok(Err(e)) => { res = errname(&e); break; } Ok(Ok(())) => {} }
-            }
-            res
+            // the stream is driven by a task of its own and only its completion is awaited with a time limit: a timer
+            // wrapped around the future itself would re-poll it when it fires and hide a lost wake-up
+            let h = tokio::spawn(async move {
+                for j in 0..20 { if let Err(e) = publ.send(format!("m{j}")).await { return errname(&e); } }
+                "no-error".to_string()
+            });
+            match tokio::time::timeout(Duration::from_secs(30), h).await { Err(_) => "hang".into(), Ok(r) => r? }
         }
         "sub" => {
             let mut sub = flaky.subscriber(&topic).with_decoder(StringCodec).open().await?;
             srv_rt.shutdown_background();
             flaky.verif_close_connection().await;
-            match tokio::time::timeout(Duration::from_secs(30), sub.next()).await { Err(_) => "hang".into(), Ok(Some(Err(e))) => errname(&e), Ok(None) => "ended".into(), Ok(Some(Ok(_))) => "item".into() }
+            let h = tokio::spawn(async move { match sub.next().await { Some(Err(e)) => errname(&e), None => "ended".into(), Some(Ok(_)) => "item".into() } });
+            match tokio::time::timeout(Duration::from_secs(30), h).await { Err(_) => "hang".into(), Ok(r) => r? }
         }
         "replier" => {
             let mut replier = flaky.replier(&topic).with_request_decoder(StringCodec).with_reply_encoder(StringCodec)
                 .with_handler(|req: String| async move { Ok::<_, anyhow::Error>(req) }).open().await?;
             srv_rt.shutdown_background();
             flaky.verif_close_connection().await;
-            match tokio::time::timeout(Duration::from_secs(30), replier.listen()).await { Err(_) => "hang".into(), Ok(Err(e)) => errname(&e), Ok(Ok(())) => "returned-ok".into() }
+            let h = tokio::spawn(async move { match replier.listen().await { Err(e) => errname(&e), Ok(()) => "returned-ok".into() } });
+            match tokio::time::timeout(Duration::from_secs(30), h).await { Err(_) => "hang".into(), Ok(r) => r? }
         }
         _ => {
             let mut rq = flaky.requestor(&topic).with_request_encoder(StringCodec).with_reply_decoder(StringCodec).with_request_timeout(300u64)?.open().await?;
             srv_rt.shutdown_background();
             flaky.verif_close_connection().await;
-            match tokio::time::timeout(Duration::from_secs(30), rq.request("q".into())).await { Err(_) => "hang".into(), Ok(Err(e)) => errname(&e), Ok(Ok(_)) => "answered".into() }
+            let h = tokio::spawn(async move { match rq.request("q".into()).await { Err(e) => errname(&e), Ok(_) => "answered".into() } });
+            match tokio::time::timeout(Duration::from_secs(30), h).await { Err(_) => "hang".into(), Ok(r) => r? }
         }
     };
     Ok(r)
@@ -206,6 +286,13 @@ pub fn run(cfg: &Cfg) {
             cases.push(format!("rec {kind} 4 2"));   // more outages than the budget of one
             cases.push(format!("rec exhaust {kind} 3"));
         }
+        cases.push("rec displaced 3".into());
+        cases.push("rec displaced 0".into());
+        cases.push("rec takeover 40".into());
+        cases.push("rec quiet 3 1".into());
+        cases.push("rec quiet 5 2".into());
+        cases.push("rec exhaust sub 0".into());
+        cases.push("rec exhaust pub 0".into());
         cases.push("rec pub 3 1".into());
         cases.push("rec replier 6 2".into());
     }
@@ -213,6 +300,8 @@ pub fn run(cfg: &Cfg) {
         let t: Vec<&str> = c.split(' ').collect();
         let res = rt.block_on(async {
             if t[1] == "exhaust" { tokio::time::timeout(Duration::from_secs(150), exhaust(&certs, t[2], t[3].parse().unwrap())).await }
+            else if t[1] == "displaced" || t[1] == "takeover" { tokio::time::timeout(Duration::from_secs(60), displaced(addr, &certs, t[2].parse().unwrap(), t[1] == "takeover")).await }
+            else if t[1] == "quiet" { tokio::time::timeout(Duration::from_secs(60), quiet(addr, &certs, t[2].parse().unwrap(), t[3].parse().unwrap())).await }
             else { tokio::time::timeout(Duration::from_secs(60), case(addr, &certs, t[1], t[2].parse().unwrap(), t[3].parse().unwrap())).await }
         });
         let (imp, mon) = match res {
@@ -221,6 +310,12 @@ pub fn run(cfg: &Cfg) {
             Ok(Ok(line)) => {
                 let m = if t[1] == "exhaust" {
                     if line == "TooManyRetries" { Ok(()) } else { Err(format!("C12: with the server gone the {} stream reported `{line}` instead of too-many-retries", t[2])) }
+                } else if t[1] == "displaced" {
+                    if line == "TooManyRetries" { Ok(()) } else { Err(format!("C12/C10: a replier whose every registration is refused (another replier stays bound) with a budget of {} attempts: `{line}` instead of too-many-retries", t[2])) }
+                } else if t[1] == "takeover" {
+                    if line == "ok" { Ok(()) } else { Err(format!("C12/C10: the waiting replier did not take over after the bound one left: {line}")) }
+                } else if t[1] == "quiet" {
+                    if line == "ok" { Ok(()) } else { Err(format!("C12: a subscriber on a silent topic, {} outages with a budget of {} attempts each: {line}", t[2], t[3])) }
                 } else {
                     let want = vec!["ok"; t[2].parse::<usize>().unwrap()].join(",");
                     if line == want { Ok(()) } else { Err(format!("C12: {} stream over {} outages (budget {} attempts per outage): {line}", t[1], t[2], t[3])) }
